@@ -7,6 +7,7 @@ import BevySyncModel.Codec.Reflect
 import BevySyncModel.Generated.TextureFormats
 import BevySyncModel.Generated.Http
 import BevySyncModel.Http
+import BevySyncModel.Slice.Comp
 /-! `bsmodel`: runs the executable model definitions on the cases the Rust harness prints, one line
 in, one line out (`ok <id>` / `MISMATCH <id> <what>`).  Lines starting with `#` are ignored.
 Only model files are imported (no proofs, no Mathlib), so this links as a native executable.
@@ -331,8 +332,84 @@ structure HttpEp where
   max : Nat
   hist : Array Http.Caches
 
+/-! ### slice replays: the check script projects a real session trace onto one slice instance and
+sends the model actions (`a …`) interleaved with what the implementation showed (`x …`) -/
+structure CompInst where
+  id : String
+  legacy : Bool
+  lpatch : Bool
+  st : Comp.State (List Nat)
+  steps : Nat := 0
+  failed : Option String := none
+
 structure DState where
   eps : Array HttpEp := #[]
+  comp : Option CompInst := none
+
+def parseV (s : String) : Option (List Nat) :=
+  if s == "-" then none else if s == "e" then some [] else some ((s.splitOn ".").map String.toNat!)
+
+def showV : Option (List Nat) → String
+  | none => "-"
+  | some [] => "e"
+  | some l => ".".intercalate (l.map toString)
+
+def compAct (toks : List String) : Option (Comp.Act (List Nat)) :=
+  match toks with
+  | ["writeH", v] => (parseV v).map Comp.Act.writeH
+  | ["detectH"] => some .detectH
+  | ["reactH"] => some .reactH
+  | ["pollH", i, n] => some (.pollH i.toNat! n.toNat!)
+  | ["flushH"] => some .flushH
+  | ["writeC", i, v] => (parseV v).map (Comp.Act.writeC i.toNat!)
+  | ["detectC", i] => some (.detectC i.toNat!)
+  | ["reactC", i] => some (.reactC i.toNat!)
+  | ["pollC", i, n] => some (.pollC i.toNat! n.toNat!)
+  | ["flushC", i] => some (.flushC i.toNat!)
+  | _ => none
+
+def compPeerObs (p : Comp.Peer (List Nat)) : String :=
+  s!"val={showV p.val} token={if p.token then 1 else 0} queue={p.queue.length}"
+
+def handleSlice (st : DState) (toks : List String) : DState × Option String :=
+  match toks with
+  | "sbegin" :: "comp" :: inst :: n :: legacy :: patch :: vH :: vs =>
+    let clients := (List.range n.toNat!).map (fun k =>
+      ({ id := k + 1, p := { val := parseV (vs.getD k "-") } } : Comp.Client (List Nat)))
+    ({ st with comp := some { id := inst, legacy := legacy == "1", lpatch := patch == "l",
+                              st := { host := { val := parseV vH }, clients := clients } } }, none)
+  | "a" :: rest =>
+    match st.comp with
+    | some ci =>
+      match compAct rest with
+      | some a =>
+        let patch : List Nat → List Nat → List Nat := if ci.lpatch then Comp.listPatch else Comp.replace
+        ({ st with comp := some { ci with st := Comp.step ci.legacy patch ci.st a, steps := ci.steps + 1 } }, none)
+      | none => ({ st with comp := some { ci with failed := ci.failed.orElse (fun _ => some s!"bad action {rest}") } }, none)
+    | none => (st, some "MISMATCH slice: action outside an instance")
+  | "x" :: rest =>
+    match st.comp with
+    | some ci =>
+      if ci.failed.isSome then (st, none) else
+      let (who, p, exp) : String × Option (Comp.Peer (List Nat)) × List String := match rest with
+        | "H" :: e => ("H", some ci.st.host, e)
+        | "C" :: i :: e => (s!"C{i}", (Comp.findClient i.toNat! ci.st.clients).map (·.p), e)
+        | _ => ("?", none, [])
+      match p, exp with
+      | some p, [v, t, q] =>
+        let obs := s!"val={v} token={t} queue={q}"
+        if compPeerObs p == obs then (st, none)
+        else ({ st with comp := some { ci with failed := some s!"after {ci.steps} actions peer {who}: model {compPeerObs p} vs implementation {obs}" } }, none)
+      | _, _ => ({ st with comp := some { ci with failed := some "bad expectation" } }, none)
+    | none => (st, some "MISMATCH slice: expectation outside an instance")
+  | ["send"] =>
+    match st.comp with
+    | some ci =>
+      ({ st with comp := none }, some (match ci.failed with
+        | none => s!"ok {ci.id}"
+        | some f => s!"MISMATCH slice comp: {f} {ci.id}"))
+    | none => (st, some "MISMATCH slice: send outside an instance")
+  | _ => (st, some "MISMATCH parse slice")
 
 def classOf (s : String) : Option Http.Class :=
   if s == "mesh" then some .mesh else if s == "image" then some .image else if s == "audio" then some .audio else none
@@ -393,6 +470,10 @@ def handle (st : DState) (line : String) : DState × Option String :=
     | "pub" :: rest => handleHttp st ("pub" :: rest)
     | "req" :: rest => handleHttp st ("req" :: rest)
     | "creq" :: rest => handleHttp st ("creq" :: rest)
+    | "sbegin" :: rest => handleSlice st ("sbegin" :: rest)
+    | "a" :: rest => handleSlice st ("a" :: rest)
+    | "x" :: rest => handleSlice st ("x" :: rest)
+    | "send" :: rest => handleSlice st ("send" :: rest)
     | kind :: id :: rest =>
       let r := match kind with
         | "mesh" => checkMesh rest
